@@ -45,6 +45,18 @@ def new_interp(prog, tid, pid):
         return Ref(st.ghost[key], ())
     I.hooks['static_object'] = static_object
 
+    # rustc prints the thread-local twin's callee as `inner::<impl actor_properties::ActorProperties>::new_thread_local`: resolve it to the other body of that name
+    def tl_props(I, st, f, args, fr):
+        cands = [n for n in prog.bodies if n.endswith('::new_thread_local') and (fr is None or n != fr.body.name)]
+        if len(cands) != 1:
+            raise Unmodelled('cannot resolve ' + f)
+        b = prog.bodies[cands[0]]
+        b = b if not isinstance(b, str) else prog.find_fn(cands[0])
+        I.stats['calls_inlined'].add(b.name)
+        return I.run_body(st, b, args)
+    import re as _re
+    I.override.append((_re.compile(r'ActorProperties>::new_thread_local'), tl_props))
+
     def dashmap_key(I, st, m, key):
         if m.oid == 'registry':
             if isinstance(key, Str) and key.s == NAME:
@@ -128,11 +140,14 @@ def holder_cell(prog, I, st):
     return Agg('ActorCell', (BoxV(pcell, 'Arc'),))
 
 
-def spawner_tree(prog, tid, pid):
+NEW_TL = 'ActorCell::new_thread_local::<TActor>'
+
+
+def spawner_tree(prog, tid, pid, fn=NEW):
     I = new_interp(prog, tid, pid)
 
     def program(I, st):
-        return mb.run_calls(I, st, [('new', NEW, lambda s: [models_std.some(Str(NAME))])])
+        return mb.run_calls(I, st, [('new', fn, lambda s: [models_std.some(Str(NAME))])])
 
     def summarize(s, kind, results, seg):
         r = results[0] if results else None
@@ -191,6 +206,11 @@ def run_instance(ctx, prog, name, scenario, rounds):
             tr, I = spawner_tree(prog, len(trees), pid)
             trees.append(tr); interps.append(I); meta.append(('spawner', pid))
         init_present, init_vals, pid_present = {}, {}, {}
+    elif scenario in ('clash', 'clash_tl'):
+        # a live holder and one spawn under its name (through ActorCell::new or its thread-local twin): the spawn is refused and the holder untouched
+        tr, I = spawner_tree(prog, 0, 10, NEW if scenario == 'clash' else NEW_TL)
+        trees.append(tr); interps.append(I); meta.append(('spawner', 10))
+        init_present, init_vals, pid_present = {0: True}, {0: HOLDER_PID}, {PIDKEYS[HOLDER_PID]: True}
     else:
         tr, I = exiter_tree(prog, 0)
         trees.append(tr); interps.append(I); meta.append(('exiter', HOLDER_PID))
@@ -234,6 +254,9 @@ def run_instance(ctx, prog, name, scenario, rounds):
     n_ok = mb.count_true([okv[t] for t in spawners])
     if scenario.startswith('vacant'):
         claims['exactly_one_spawn_succeeds'] = n_ok == 1
+    elif scenario.startswith('clash'):
+        claims['a_spawn_under_a_held_name_is_refused'] = z3.And(n_ok == 0, z3.And([alr[t] for t in spawners]))
+        claims['a_name_clash_changes_nothing_about_the_holder'] = z3.And(fin['p0'], fin['v0'] == HOLDER_PID, finp['p%d' % PIDKEYS[HOLDER_PID]])
     else:
         claims['at_most_one_spawn_succeeds'] = z3.ULE(n_ok, 1)
         ex = 0
@@ -261,6 +284,8 @@ def run_instance(ctx, prog, name, scenario, rounds):
     ctx.witness(name + '.everyone_finishes', base + [done], logic='QF_BV')
     if scenario.startswith('vacant'):
         ctx.witness(name + '.second_spawner_wins', base + [done, okv[spawners[1]]], logic='QF_BV')
+    elif scenario.startswith('clash'):
+        pass
     else:
         ctx.witness(name + '.respawn_succeeds_after_exit', base + [done, okv[spawners[0]]], logic='QF_BV')
         ctx.witness(name + '.respawn_fails_while_holder_registered', base + [done, z3.Not(okv[spawners[0]])], logic='QF_BV')
@@ -284,6 +309,9 @@ def run_instance(ctx, prog, name, scenario, rounds):
 
         def on_cex(model):
             import C10_replay
+            if scenario.startswith('clash'):
+                import C10_release_replay
+                return C10_release_replay.replay_clash()
             return C10_replay.replay(scenario, [m_[0] for m_ in meta], sched, bad)
         ctx.handle_cex(rec['name'], 'C10.' + (bad[0].split('.')[0] if bad else 'claims'), m, on_cex, rec)
         ctx.obligations.append(rec)
@@ -309,10 +337,10 @@ def run(ctx):
                         'tokio channel / Notify / Mutex constructors create fresh thread-local objects (nothing else can reach them before the cell is published)',
                         'pg::{demonitor_all,leave_all} and pid_registry::demonitor are no-ops here']
     if ctx.tier == 'quick':
-        insts = [('vacant_2spawners_r2', 'vacant2', 2), ('exit_respawn_lookup_r2', 'exit_respawn', 2)]
+        insts = [('vacant_2spawners_r2', 'vacant2', 2), ('exit_respawn_lookup_r2', 'exit_respawn', 2), ('clash_r1', 'clash', 1), ('clash_thread_local_r1', 'clash_tl', 1)]
     else:
         insts = [('vacant_2spawners_r2', 'vacant2', 2), ('exit_respawn_lookup_r2', 'exit_respawn', 2), ('vacant_3spawners_r2', 'vacant3', 2),
-                 ('exit_respawn_lookup_r3', 'exit_respawn', 3), ('exit_2respawn_lookup_r2', 'exit_respawn2', 2), ('vacant_2spawners_r3', 'vacant2', 3)]
+                 ('exit_respawn_lookup_r3', 'exit_respawn', 3), ('exit_2respawn_lookup_r2', 'exit_respawn2', 2), ('vacant_2spawners_r3', 'vacant2', 3), ('clash_r1', 'clash', 1), ('clash_thread_local_r1', 'clash_tl', 1)]
     if os.environ.get('VERIF_C10_INST'):
         a = os.environ['VERIF_C10_INST'].split(',')
         insts = [(os.environ['VERIF_C10_INST'], a[0], int(a[1]))]
@@ -347,7 +375,7 @@ def replay_file(path):
     import json
     import C10_replay
     d = json.load(open(path))
-    if (d.get('replay') or {}).get('which') == 'release':
+    if (d.get('replay') or {}).get('which') in ('release', 'clash'):
         import C10_release_replay
         return C10_release_replay.replay_from_json(d)
     return C10_replay.replay_from_json(d)
